@@ -233,7 +233,9 @@ package swagen31
 
 // Every route that is not hidden ends up registered under its normalised path and verb (C01); routes were
 // validated upstream (a method has at least one return value; a body and a form never meet).
-//@ func generateControllerSpec props C01,C11,C14
+// C04: generation stops at the first controller that fails (the only failure is an undeclared security scheme, see
+// generateOperationSecurity#undeclared): the count of registered routes is only promised for a nil result
+//@ func generateControllerSpec props C01,C04,C11,C14
 //@ requires doc != nil && config != nil && pathsShaped(doc)
 //@ requires forall(k, 0, len(def.Routes), len(def.Routes[k].Responses) >= 1 && swagtool.noBodyFormMix(def.Routes[k]))
 //@ modifies doc.Paths, any(v3.PathItem), any(elems(map[string]*v3.PathItem)), any(definitions.TypeMetadata.Name), any(elems(map[string]*v3.Response)), any(elems([]*v3.Parameter)), any(base.Schema.Format), any(base.Schema.ExclusiveMinimum), any(base.Schema.Minimum), any(base.Schema.ExclusiveMaximum), any(base.Schema.Maximum), any(base.Schema.MinLength), any(base.Schema.MaxLength), any(base.Schema.Pattern), any(base.Schema.MinItems), any(base.Schema.MaxItems), any(base.Schema.UniqueItems), any(base.Schema.Enum), any(elems([]*yaml.Node)), any(base.Schema.Description), any(base.Schema.Required), any(base.Schema.Properties), any(elems([]string)), any(elems(map[string]*base.SchemaProxy)), any(elems(map[string]*v3.MediaType))
@@ -248,7 +250,7 @@ package swagen31
 
 //@ rec sumVisible31(defs []definitions.ControllerMetadata, n int) int = ite(n <= 0, 0, sumVisible31(defs, n-1) + countVisible31(defs[n-1], len(defs[n-1].Routes)))
 // All controllers: exactly the routes that are not hidden are registered (one registration per such route).
-//@ func GenerateControllersSpec props C01,C11,C14
+//@ func GenerateControllersSpec props C01,C04,C11,C14
 //@ requires doc != nil && config != nil && pathsShaped(doc)
 //@ requires swagtool.emittable(defs)
 //@ modifies doc.Paths, any(v3.PathItem), any(elems(map[string]*v3.PathItem)), any(definitions.TypeMetadata.Name), any(elems(map[string]*v3.Response)), any(elems([]*v3.Parameter)), any(base.Schema.Format), any(base.Schema.ExclusiveMinimum), any(base.Schema.Minimum), any(base.Schema.ExclusiveMaximum), any(base.Schema.Maximum), any(base.Schema.MinLength), any(base.Schema.MaxLength), any(base.Schema.Pattern), any(base.Schema.MinItems), any(base.Schema.MaxItems), any(base.Schema.UniqueItems), any(base.Schema.Enum), any(elems([]*yaml.Node)), any(base.Schema.Description), any(base.Schema.Required), any(base.Schema.Properties), any(elems([]string)), any(elems(map[string]*base.SchemaProxy)), any(elems(map[string]*v3.MediaType))
